@@ -129,6 +129,7 @@ def instantiate(terms, rounds=5, templates=None):
 
     work = list(terms)
     terms_pos = terms
+    persist = {}
     for rnd in range(rounds):
         allsub = {}
         for t in work:
@@ -202,6 +203,10 @@ def instantiate(terms, rounds=5, templates=None):
                 a, b2 = x.args
                 new.append(Implies(Le(b2, a), Eq(fx, h.zero())))
                 new.append(Implies(Eq(b2, Add(a, I(1))), Eq(fx, h.unit(a))))
+            elif (x.op in ("#const", "select", "seq.nth") or x.op.startswith("hom_")) and rnd == 0:
+                # opaque sequence: expand when its length is a small constant (regions of 1-4 tokens)
+                for n in range(0, 5):
+                    new.append(Implies(Eq(Len(x), I(n)), Eq(fx, h.plus(*[h.unit(Nth(x, I(i))) for i in range(n)]) if n else h.zero())))
         # rules on extracts of the same base
         for bs, (s, h, exts) in by_base.items():
             es = list(exts.values())[:12]
@@ -223,7 +228,7 @@ def instantiate(terms, rounds=5, templates=None):
                         continue
                     a2, n2 = e2.args[1], e2.args[2]
                     same = str(a1) == str(a2)
-                    if not same and not (len(str(a1)) < 40 and len(str(a2)) < 40 and len(es) <= 6):
+                    if not same and not (len(str(a1)) < 40 and len(str(a2)) < 40 and len(es) <= 6 and rnd <= 1):
                         continue
                     k = ("pre", str(h.of(e1)), str(h.of(e2)))
                     if k in done_other:
@@ -281,6 +286,17 @@ def instantiate(terms, rounds=5, templates=None):
                     )
                 else:
                     new.append(Implies(t, Ne(x, S(""))))
+            if t.op == "str_repeat":
+                k = str(t)
+                if k not in done_other:
+                    done_other.add(k)
+                    sx, n = t.args
+                    new.append(Eq(Len(t), Ite(Ge(n, I(0)), T("*", (Len(sx), n), INT) if sx.op != "#str" else T("*", (I(len(sx.val)), n), INT), I(0))))
+                    if sx.op == "#str" and sx.val != "" and sx.val.isspace():
+                        new.append(Eq(App("isspace", (t,), BOOL), Ge(n, I(1))))
+                    if sx.op == "#str" and len(sx.val) == 1:
+                        new.append(Implies(Le(n, I(0)), Eq(t, S(""))))
+                        new.append(Eq(App("str_repeat", (sx, I(1)), STR), sx))
             if t.op in ("split", "wsplit"):
                 k = str(t)
                 if k in done_other:
@@ -304,13 +320,60 @@ def instantiate(terms, rounds=5, templates=None):
                     suf = Or(*[App("str.suffixof", (S(c), t), BOOL) for c in "boxd"])
                     lastc = App("str.at", (x, Sub(Len(x), I(1))), STR)
                     new.append(Implies(suf, And(Ge(Len(x), I(1)), Not(App("isdigit", (lastc,), BOOL)))))
+        # class hierarchy: relations between the isa_* predicates applied to one object, and exact class of allocated objects
+        ci = templates.get("#classes")
+        if ci:
+            per_obj = persist.setdefault("per_obj", {})
+            clst = persist.setdefault("clst", {})
+            for t in allsub.values():
+                if t.op.startswith("isa_"):
+                    per_obj.setdefault(str(t.args[0]), (t.args[0], {}))[1][t.op[4:].replace("__", ".")] = t
+                elif t.op == "cls":
+                    clst[str(t.args[0])] = t
+            for ko, (obj, preds) in per_obj.items():
+                qs = sorted(preds)
+                for i, a in enumerate(qs):
+                    for b in qs[i + 1 :]:
+                        r = ci["rel"].get((a, b))
+                        kk = ("cls-rel", ko, a, b)
+                        if r is None or kk in done_other:
+                            continue
+                        done_other.add(kk)
+                        if r == "subset":
+                            new.append(Implies(preds[a], preds[b]))
+                        elif r == "superset":
+                            new.append(Implies(preds[b], preds[a]))
+                        elif r == "disjoint":
+                            new.append(Not(And(preds[a], preds[b])))
+                if ko in clst:
+                    for q in qs:
+                        kk = ("cls-id", ko, q)
+                        if kk in done_other or q not in ci["ids"]:
+                            continue
+                        done_other.add(kk)
+                        new.append(Eq(preds[q], Or(*[Eq(clst[ko], I(i)) for i in ci["ids"][q]])))
         # freshness: a constant new_*!N was allocated after every constant with a smaller number was created, so no
         # older term denotes it or contains it; spec functions over older sequences do not see writes to its fields
         fresh = [t for t in allsub.values() if t.op == "#const" and t.args[0].startswith("new_") and t.sort == "Ref"]
         if fresh:
+            _stamp_cache = {}
+
             def stamp(t):
-                ns = [int(n.rsplit("!", 1)[1]) for n in _names(t) if "!" in n and n.rsplit("!", 1)[1].isdigit()]
-                return max(ns) if ns else -1
+                """newest container/object constant in t (integer, boolean and string constants cannot hold an object)"""
+                k = str(t)
+                if k in _stamp_cache:
+                    return _stamp_cache[k]
+                m = -1
+                if t.op == "#const":
+                    n = t.args[0]
+                    if t.sort not in (INT, BOOL, STR) and "!" in n and n.rsplit("!", 1)[1].isdigit():
+                        m = int(n.rsplit("!", 1)[1])
+                else:
+                    for a in t.args:
+                        if isinstance(a, T):
+                            m = max(m, stamp(a))
+                _stamp_cache[k] = m
+                return m
 
             for r in fresh:
                 nr = int(r.args[0].rsplit("!", 1)[1])
@@ -427,6 +490,8 @@ def instantiate(terms, rounds=5, templates=None):
                 kv, rng, body = t.args
                 if not positive_in(t, terms_pos):
                     continue
+                if (bound - {kv.args[0]}) & set(_names(t)):
+                    continue  # nested quantifier that mentions an outer bound variable
                 mycands = cands if kv.sort == INT else list(key_cands.get(str(kv.sort), {}).values())[:10]
                 for c in mycands:
                     if kv.args[0] in consts_of([c]):
